@@ -45,7 +45,13 @@ def check(m, run):
     _sd.own2(m, run, rs.CONCRETE)      # the control points, caches and boxes read here are those of the shape asked: no container is shared between two new objects
     ag7(m, run)
     funcs = c01.evaluator_funcs(m)
-    rl.ly1_canonical(m, run, funcs)
+    n_ev = len(run.obs)
+    _sd.evx(m, run)
+    _sd.a36s(m, run)
+    _sd.a34s(m, run)
+    ev_ok = all(o.ok for o in run.obs[n_ev:])
+    with run.corroborating(ev_ok, 'EVX/A36S/A34S', rules=('LY1.canonical-stride',), only=lambda o: o.rule.startswith('LY1')):
+        rl.ly1_canonical(m, run, funcs)
     c01.bp1(m, run, funcs)
     ln1(m, run)
     from . import c17
@@ -54,7 +60,7 @@ def check(m, run):
     # the hull property rests on the basis values being the Cox-de Boor polynomials - non-negative on their span and summing to one (BF3, shared with C03)
     from .. import skel_drivers as _sdb
     _sdb.bf3(m, run)
-    _sdb.evx(m, run)      # ... and every evaluated point being the combination of exactly the degree + 1 (per direction) active control points with them (EVX, shared with C01)
+    # (EVX runs above) ... and every evaluated point being the combination of exactly the degree + 1 (per direction) active control points with them (EVX, shared with C01)
     _sdb.cp2(m, run)      # parameters are accepted exactly when they lie in the (normalised) domain: no tolerance lets an evaluation out of it
     rs.iv4_deepcopy(m, run)
     _sdb.sc2(m, run)
